@@ -419,7 +419,25 @@ func c04RunInBubble(cs c04Case, res *c04Result) {
 			return
 		}
 		if d := (memnet.Snap{}).Diff(now); len(d) > 0 {
-			h.Vio("usage-not-zero-after-close/"+n.side.Name, "host %s was closed, but resource usage is not zero: %s", n.side.Name, strings.Join(d, "; "))
+			key := "usage-not-zero-after-close/" + n.side.Name
+			// Attribute the leak to listener.Accept's "skip a connection that is already closed" path only when
+			// nothing else can explain it: this host upgraded more connections than its swarm ever saw (every
+			// connection that Accept returns reaches addConn, whose first act is InterceptUpgraded), the
+			// sessions of the upgraded connections are all closed, and exactly that many connection scopes
+			// (and nothing else) are left.
+			muxed := n.side.Muxer.Conns()
+			closed := 0
+			for _, mc := range muxed {
+				if mc.IsClosed() {
+					closed++
+				}
+			}
+			missing := len(muxed) - n.side.Gater.Counts()[memnet.HookUpgraded]
+			st := now.System
+			if missing > 0 && closed == len(muxed) && st.NumConnsInbound+st.NumConnsOutbound == missing && st.NumStreamsInbound+st.NumStreamsOutbound == 0 && st.Memory == 0 {
+				key += "/closed-conn-skipped-by-accept"
+			}
+			h.Vio(key, "host %s was closed, but resource usage is not zero: %s", n.side.Name, strings.Join(d, "; "))
 		}
 		if c := n.sw.Conns(); len(c) > 0 {
 			h.Vio("conns-after-close/"+n.side.Name, "host %s was closed, but its swarm still lists %d connection(s)", n.side.Name, len(c))
